@@ -119,6 +119,28 @@ CHECKS["C10"] = dict(
     design="3/C10",
 )
 
+CHECKS["C11"] = dict(
+    technique="symbolic execution of LocalHam1D/LocalHamGen on symbolic terms (z3 identity queries); concolic execution (z3 QF_LRA) of the real TEBD.update_to/step/sweep/at_times on symbolic t0, dt, T with recorders for MPS and gate cache; real sweeps with an uninterpreted matrix exponential and LAPACK stubs (certificates)",
+    text="Bounded symbolic model checking. (a) For L <= 5, open/periodic, dict/single/flipped-key inputs the stored terms sum to the supplied one- and two-site terms for all entry values, "
+         "get_gate(where) has its factors in the order of where, get_gate_expm exponentiates x * that term. (b) For symbolic t0, dt, T1 <= T2 with (T - t0) <= 3 dt (4 dt thorough), orders 1, 2, 4, "
+         "L = 3..6: t == T exactly at return, queue drained, step sizes dt,...,dt,remainder, the recorded sweeps (adjacent equal layers merged) are the documented palindromic formula per step, "
+         "per bond the exponents sum to T - t0, every bond lies in exactly one layer, layers consist of disjoint bonds (except odd periodic chains, as documented). (c) One step through the real "
+         "sweeps (L = 3, 4; order 1, 2; open and periodic) equals the reference product of the requested exponentials applied to the initial state, with generators -i dt frac * term(bond).",
+    note="Trusted: z3, qv engines, LAPACK contracts. (b) replaces MPS and gate cache by recorders; (c) treats expm as uninterpreted per generator (real scipy expm in the numeric cross-run). "
+         "Outside: convergence-rate measurements, err estimate, truncation, 2D/3D simple update beyond the Hamiltonian object.",
+    design="3/C11",
+)
+CHECKS["C17"] = dict(
+    technique="concolic symbolic execution (z3) of the real selection / sorting / windowing / dispatch / block-finding code of quimb.linalg on symbolic spectra; LAPACK and scipy iterative solvers replaced by contract stubs or recorders; certificates for norm / sqrtm / expm identities",
+    text="Bounded symbolic model checking of the wrapper logic around the eigen/singular solvers: for symbolic spectra (n <= 5, ties included), symbolic targets and window parameters, every "
+         "documented selection rule, k, sort and vector option, the real code returns exactly an extremal k-subset of the solver's spectrum in the documented order with each vector paired to "
+         "its value; backend choice is proved against its rule for all sizes d and k (symbolic integers), argument forwarding and fallback for every backend name; block shortcuts return the union of "
+         "per-block spectra with embedded vectors; the block finder is checked exhaustively up to d = 5; norm / sqrtm(herm) / expm(herm) identities modulo the eigh/svd contracts.",
+    note="Trusted: z3, qv engines, contract stubs (eigh ascending/orthonormal, svd, general eig, generalised eigh), recorders in quimb's solver tables. Outside (FFI): whether LAPACK/ARPACK/LOBPCG/SLEPc "
+         "return genuine eigenpairs (sampled numerically at n = 6 only), shift-invert inside scipy, rounding/convergence, randomized estimators, ordering of complex eigenvalues, SLEPc/MPI paths.",
+    design="3/C17",
+)
+
 NA = {}
 
 
